@@ -87,7 +87,7 @@ func checkC16(q string) (msg string) {
 			}
 			got := q[t.Pos:end]
 			if isWordTok(t) {
-				got = strings.ToLower(got)
+				got = lib.FoldWord(got)
 			}
 			if got != t.Data {
 				return fmt.Sprintf("query %q: token %d text %q is not what stands at its offset %d (%q): %s", q, i, t.Data, t.Pos, q[t.Pos:end], showToks(toks))
@@ -124,9 +124,9 @@ func isWordTok(t *kvql.Token) bool {
 	return true
 }
 
-// tab and line end: their treatment is not documented (the reference
-// tokeniser abstains), but the token-truth invariants hold for them too
-const c16Alphabet = "a1. '\"`=!<>^~&|()[],;+-*/\t\n"
+// tab and line end are blanks like the space; \xff is a byte that is not
+// valid UTF-8 (a word must carry it unchanged)
+const c16Alphabet = "a1. '\"`=!<>^~&|()[],;+-*/\t\n\xff"
 
 func c16Nontrivial(q string) bool {
 	// a two-character operator, or a quoted literal adjacent to another token
